@@ -2764,6 +2764,14 @@ def c10(tier, seed):
         log("[C10] Expr family %s: %d expressions (%.1fs)" % (name, len(out), res["wall"]))
         exprs += [(name, t, e) for (t, e) in out]
     judged = [(f, t, e) for (f, t, e) in exprs if e != "U"]
+    # the engine evaluates about 4 000 texts per second (four paths each): the thorough tier takes a random sample of the
+    # enumerated expressions of the large families that keeps the run below about twenty minutes
+    cap = 250000
+    if tier != "quick" and len(judged) > cap:
+        small = [x for x in judged if x[0] in ("k1", "k2big")]
+        big = [x for x in judged if x[0] not in ("k1", "k2big")]
+        judged = small + rng.sample(big, max(0, cap - len(small)))
+        var_frac = 0.5
     jobs = []
     meta = {}
     for (f, t, e) in judged:
